@@ -155,6 +155,96 @@ def _asint(x):
     return x if integral(sp.expand(x)) else TRUNC(x)
 
 
+def _uniformity_assumption(test, stmts, n):
+    """what a guard says about the model: ('const', value expr) when it states that all entries of an array are equal,
+    ('zero', value expr) when they all vanish, ('single',) when there is only one radius, None when it is not understood"""
+    defs = {}
+    for st in stmts:
+        if isinstance(st, ast.Assign) and len(st.targets) == 1:
+            defs.setdefault(src(st.targets[0]), []).append(st.value)
+    e = test
+    for _ in range(4):
+        if isinstance(e, (ast.Name, ast.Attribute)) and len(defs.get(src(e), [])) == 1:
+            e = defs[src(e)][0]
+        elif isinstance(e, ast.Call) and src(e.func) == "bool" and len(e.args) == 1:
+            e = e.args[0]
+        else:
+            break
+    cmp_ = None
+    if isinstance(e, ast.Call) and src(e.func) in ("np.all", "all", "np.alltrue") and len(e.args) == 1:
+        cmp_ = e.args[0]
+    elif isinstance(e, ast.Call) and isinstance(e.func, ast.Attribute) and e.func.attr == "all" and not e.args:
+        cmp_ = e.func.value
+    if isinstance(cmp_, ast.Compare) and len(cmp_.ops) == 1 and isinstance(cmp_.ops[0], ast.Eq):
+        a, b = cmp_.left, cmp_.comparators[0]
+        try:
+            if isinstance(b, ast.Subscript) and src(b.value) == src(a) and isinstance(b.slice, ast.Constant):
+                return ("const", n.ev(a))
+            if isinstance(a, ast.Subscript) and src(a.value) == src(b) and isinstance(a.slice, ast.Constant):
+                return ("const", n.ev(b))
+            if isinstance(b, ast.Constant) and b.value == 0:
+                return ("zero", n.ev(a))
+        except Undecided:
+            return None
+    if isinstance(e, ast.Compare) and len(e.ops) == 1 and isinstance(e.ops[0], (ast.Eq, ast.LtE)) and isinstance(e.comparators[0], ast.Constant) \
+            and e.comparators[0].value == 1 and src(e.left) in ("len(r)", "r.size", "r.shape[0]", "nR"):
+        return ("single",)
+    return None
+
+
+def unmodelled_rebinding(chk, fn, stmts, n, g, keys):
+    """the element-wise model follows straight-line assignments; a conditional or loop that re-binds a quantity the tables are built
+    from is either a recognised form (the local radii cut to the first one) or makes the comparison undecided"""
+    q = f"{CLS}._getLagrangePts"
+    r = g["r"]
+    read = set()
+    for st in stmts:
+        if isinstance(st, ast.Assign):
+            read |= {src(x) for x in ast.walk(st.value) if isinstance(x, (ast.Name, ast.Attribute))}
+    read |= set(keys)
+    for st in stmts:
+        if not isinstance(st, (ast.If, ast.For, ast.While, ast.Try)):
+            continue
+        stored = [x for x in ast.walk(st) if isinstance(x, (ast.Assign, ast.AugAssign))]
+        hit = [x for x in stored if src(x.targets[0] if isinstance(x, ast.Assign) else x.target).split("[")[0] in read]
+        if not hit:
+            continue
+        # recognised form: `if <cond>: r = r[:k]` - the tables get fewer rows than there are local radii
+        cut = [x for x in hit if isinstance(st, ast.If) and isinstance(x, ast.Assign) and isinstance(x.targets[0], ast.Name)
+               and n.env.get(x.targets[0].id) == r and isinstance(x.value, ast.Subscript) and src(x.value.value) == x.targets[0].id
+               and isinstance(x.value.slice, ast.Slice) and x.value.slice.step is None
+               and (x.value.slice.lower is None or src(x.value.slice.lower) == "0") and isinstance(x.value.slice.upper, ast.Constant)]
+        if cut and len(hit) == len(cut) and not st.orelse:
+            what = _uniformity_assumption(st.test, stmts, n)
+            tables = {k: n.env.get(k) for k in ("zDist", "self._shifts", "self._thetaShifts", "self._lagrangeCoeffs") if isinstance(n.env.get(k), sp.Basic)}
+            dep = {}
+            for k, v in tables.items():
+                if what is not None and what[0] in ("const", "zero") and isinstance(what[1], sp.Basic):
+                    v = v.subs(what[1], Symbol("uniform_value") if what[0] == "const" else Integer(0))
+                if r in v.free_symbols:
+                    dep[k] = v
+            if what == ("single",):
+                ok, why = True, f"`{src(cut[0])}` under `{src(st.test)}` keeps the only local radius"
+            elif what is None or not tables:
+                ok, why = None, (f"`{src(cut[0])}` under `{src(st.test)[:60]}` cuts the local radii the tables are built for; the condition is "
+                                 "outside the model: whether the omitted rows would equal the kept one is not decided")
+            elif dep:
+                k0 = "zDist" if "zDist" in dep else sorted(dep)[0]
+                ok, why = False, (f"when `{src(st.test)}` holds the tables are built for the first local radius only (`{src(cut[0])}`), i.e. every "
+                                  f"flux surface is advected with the tables of that radius; but `{k0}` = {dep[k0]} still depends on r when "
+                                  f"{what[1]} is the same on all surfaces" + (" (through b_z = 1/sqrt(1 + (r iota/R0)^2))" if k0 in ("zDist", "self._shifts") else "") +
+                                  ": all surfaces but the first get the foot of the first one")
+            else:
+                ok, why = True, (f"`{src(cut[0])}` under `{src(st.test)}`: with {what[1]} {'equal on all surfaces' if what[0] == 'const' else '= 0'} none of "
+                                 "the tables depends on r, one row serves every radius")
+            chk.ob("F6-radial-table", st, f"if {src(st.test)[:50]}: {src(cut[0])}", ok, why, file=U.ADV, func=q)
+            continue
+        names = sorted({src(x.targets[0] if isinstance(x, ast.Assign) else x.target).split("[")[0] for x in hit})
+        chk.ob("F6-lagrange-geometry", st, f"{type(st).__name__.lower()} {src(st).splitlines()[0][:60]}", None,
+               f"{names} (used to build the tables) {'is' if len(names) == 1 else 'are'} re-bound inside a {type(st).__name__.lower()} statement: "
+               "outside the straight-line element-wise model, the formulas above are those of the unconditional part only", file=U.ADV, func=q)
+
+
 def lagrange_points(chk):
     fn = chk.func(U.ADV, f"{CLS}._getLagrangePts")
     q = f"{CLS}._getLagrangePts"
@@ -224,6 +314,7 @@ def lagrange_points(chk):
                 why += ": the conversion to int truncates towards zero, so for negative displacements the stencil is one cell off the floor"
         chk.ob("F6-lagrange-geometry", fn, f"{key} = ...", ok, why, file=U.ADV, func=q,
                facts={"code": str(got), "spec": str(want), "absolute_spec": str(abs_want), "matches_absolute": bool(abs_ok[key])})
+    unmodelled_rebinding(chk, fn, stmts, n, g, [key for key, *_ in spec] + ["self._lagrangeCoeffs"])
     # stencil offsets centred on the foot: K in [floor(-n/2)+1, floor(n/2)+1)
     ar = n.aranges.get("K")
     okc, whyc = None, "stencil offsets np.arange(lo, hi) not extractable"
@@ -378,60 +469,298 @@ def _writer_diagnosis(vals, keys, want_key, want_val, congruent):
     return "; ".join(out) or f"writer stores {dict(vals.cells)}"
 
 
+def devectorise(fn):
+    """private copy of a kernel in which whole-array statements over slices (`A[:n, :m] op= expr` with operands `B[:m, :n, k].T`,
+    scalars, arithmetic) are written as the element loops they abbreviate; statements outside this fragment are left as they are"""
+    from ..core import clone
+    count = [0]
+
+    def items_of(sub):
+        return list(sub.slice.elts) if isinstance(sub.slice, ast.Tuple) else [sub.slice]
+
+    def elem(e, tv):
+        """element of operand `e` at the target's loop variables tv = [(var, lower or None)] (numpy right alignment)"""
+        if isinstance(e, ast.Constant):
+            return e
+        if isinstance(e, ast.Name):
+            return e if e.id in scalars else None
+        if isinstance(e, ast.BinOp):
+            a, b = elem(e.left, tv), elem(e.right, tv)
+            return None if a is None or b is None else ast.BinOp(left=a, op=e.op, right=b)
+        if isinstance(e, ast.UnaryOp):
+            a = elem(e.operand, tv)
+            return None if a is None else ast.UnaryOp(op=e.op, operand=a)
+        if isinstance(e, ast.Attribute) and e.attr == "T":
+            return elem(e.value, list(reversed(tv)))
+        if isinstance(e, ast.Call) and isinstance(e.func, ast.Name) and e.func.id == "len" and len(e.args) == 1:
+            return e
+        if isinstance(e, ast.Subscript) and isinstance(e.value, ast.Name):
+            its = items_of(e)
+            free = [k for k, it in enumerate(its) if isinstance(it, ast.Slice)]
+            if not free:
+                return e
+            if len(free) > len(tv) or any(its[k].step is not None for k in free):
+                return None
+            use = tv[len(tv) - len(free):]
+            new = list(its)
+            for k, (v, tlo) in zip(free, use):
+                olo = its[k].lower
+                idx = ast.Name(id=v, ctx=ast.Load())
+                if (olo is None) != (tlo is None) or (olo is not None and src(olo) != src(tlo)):
+                    off = idx if tlo is None else ast.BinOp(left=idx, op=ast.Sub(), right=tlo)
+                    idx = off if olo is None else ast.BinOp(left=olo, op=ast.Add(), right=off)
+                new[k] = idx
+            return ast.Subscript(value=e.value, slice=ast.Tuple(elts=new, ctx=ast.Load()) if len(new) > 1 else new[0], ctx=ast.Load())
+        return None
+
+    def lower(st):
+        tg = st.targets[0] if isinstance(st, ast.Assign) and len(st.targets) == 1 else st.target if isinstance(st, ast.AugAssign) else None
+        if not (isinstance(tg, ast.Subscript) and isinstance(tg.value, ast.Name)):
+            return None
+        its = items_of(tg)
+        free = [k for k, it in enumerate(its) if isinstance(it, ast.Slice)]
+        if not free or any(its[k].step is not None for k in free):
+            return None
+        if any(isinstance(n, ast.Name) and n.id == tg.value.id for n in ast.walk(st.value)):
+            return None          # the right-hand side reads the array being written: not element-wise in general
+        tv, loops, new = [], [], list(its)
+        for k in free:
+            count[0] += 1
+            v = f"_e{count[0]}"
+            lo, hi = its[k].lower, its[k].upper
+            if hi is None:
+                hi = ast.Subscript(value=ast.Attribute(value=tg.value, attr="shape", ctx=ast.Load()), slice=ast.Constant(value=k), ctx=ast.Load())
+            loops.append((v, lo, hi))
+            tv.append((v, lo))
+            new[k] = ast.Name(id=v, ctx=ast.Load())
+        val = elem(st.value, tv)
+        if val is None:
+            return None
+        tgt = ast.Subscript(value=tg.value, slice=ast.Tuple(elts=new, ctx=ast.Load()) if len(new) > 1 else new[0], ctx=ast.Store())
+        body = ast.Assign(targets=[tgt], value=val) if isinstance(st, ast.Assign) else ast.AugAssign(target=tgt, op=st.op, value=val)
+        for v, lo, hi in reversed(loops):
+            rng = ast.Call(func=ast.Name(id="range", ctx=ast.Load()), args=([lo] if lo is not None else []) + [hi], keywords=[])
+            body = ast.For(target=ast.Name(id=v, ctx=ast.Store()), iter=rng, body=[body], orelse=[])
+        return body
+
+    def is_vec(st):
+        tg = st.targets[0] if isinstance(st, ast.Assign) and len(st.targets) == 1 else st.target if isinstance(st, ast.AugAssign) else None
+        return isinstance(tg, ast.Subscript) and any(isinstance(it, ast.Slice) for it in items_of(tg))
+    if not any(is_vec(n) for n in ast.walk(fn) if isinstance(n, (ast.Assign, ast.AugAssign))):
+        return fn
+    new = clone(fn)
+    scalars = {a.arg for a in new.args.args if a.annotation is None or "[" not in src(a.annotation)}
+    for n in ast.walk(new):
+        if isinstance(n, ast.For) and isinstance(n.target, ast.Name):
+            scalars.add(n.target.id)
+    for blk_owner in list(ast.walk(new)):
+        for fld in ("body", "orelse"):
+            blk = getattr(blk_owner, fld, None)
+            if isinstance(blk, list):
+                for k, st in enumerate(blk):
+                    if isinstance(st, (ast.Assign, ast.AugAssign)) and is_vec(st):
+                        lw = lower(st)
+                        if lw is not None:
+                            blk[k] = ast.fix_missing_locations(ast.copy_location(lw, st))
+    for n in ast.walk(new):
+        for ch in ast.iter_child_nodes(n):
+            if not hasattr(ch, "lineno") and isinstance(ch, (ast.expr, ast.stmt)):
+                ast.copy_location(ch, n)
+    ast.fix_missing_locations(new)
+    return new
+
+
+def _vector_into_view(ex, call):
+    """eval_spline_1d_vector(x, kts, deg, coeffs, y, der) with y a one-axis view `A[.., :, ..]`: the value for the k-th point goes to the
+    cell of the view's k-th element (other forms: the engine's whole-array handler)"""
+    from ..kernels import VECTOR1_FORMALS, sym_of
+    from ..symx import Arr, _elem
+    nodes = dict(zip(VECTOR1_FORMALS, call.args))
+    nodes.update({k.arg: k.value for k in call.keywords})
+    y = nodes.get("y")
+    if isinstance(y, ast.Subscript) and isinstance(y.value, ast.Name) and isinstance(ex.env.get(y.value.id), Arr) \
+            and all(k in nodes for k in ("x", "knots", "degree", "coeffs")):
+        items = list(y.slice.elts) if isinstance(y.slice, ast.Tuple) else [y.slice]
+        sl = [k for k, it in enumerate(items) if isinstance(it, ast.Slice)]
+        if len(sl) == 1 and items[sl[0]].step is None and items[sl[0]].lower is None:
+            base = ex.env[y.value.id]
+            x = ex.ev(nodes["x"])
+            der = ex.ev(nodes["der"]) if "der" in nodes else Integer(0)
+            fam = tuple(sym_of(ex.ev(nodes[k])) for k in ("knots", "degree", "coeffs"))
+            nm = "k"
+            while nm in ex.env:
+                nm += "_"
+            kv = Symbol(nm, integer=True)
+            idx = [kv if k == sl[0] else ex.ev(it) for k, it in enumerate(items)]
+            base.write(idx, S1(_elem(x, (kv,)), der, *fam))
+            ex.all_loop_syms = getattr(ex, "all_loop_syms", set()) | {kv}
+            return sp.S.NaN
+    return h_vector1(ex, call)
+
+
+def _h_mod(ex, call):
+    """np.mod(a, b) / mod(a, b): the `%` of its arguments (element-wise on arrays)"""
+    from ..symx import Arr, Vec, _elem
+    if len(call.args) != 2 or call.keywords:
+        raise Undecided("mod arguments")
+    a, b = ex.ev(call.args[0]), ex.ev(call.args[1])
+    if isinstance(a, (Arr, Vec)) or isinstance(b, (Arr, Vec)):
+        return Vec(lambda ix, a=a, b=b: ex.binop(ast.Mod(), _elem(a, ix), _elem(b, ix), call))
+    return ex.binop(ast.Mod(), a, b, call)
+
+
+def _sums_from_zero(e):
+    """every Sum over k = a .. hi with a small literal a > 0 written as the Sum from 0 minus its first a terms (one canonical lower limit,
+    so that `s = c0 v0; for k in 1..` and `s = 0; for k in 0..` have the same normal form)"""
+    if not isinstance(e, sp.Basic) or not e.has(sp.Sum):
+        return e
+
+    def fix(s_):
+        if len(s_.limits) == 1:
+            k, lo, hi = s_.limits[0]
+            if lo.is_Integer and 0 < int(lo) <= 4:
+                return sp.Sum(s_.function, (k, 0, hi)) - sum(s_.function.subs(k, t) for t in range(int(lo)))
+        return s_
+    return e.replace(lambda x: isinstance(x, sp.Sum), fix)
+
+
+AXES = ("z row", "theta node", "stencil entry")
+
+
+def _axes_text(perm):
+    """perm = (axis of the z row, axis of the theta node, axis of the stencil entry) -> '[z row, theta node, stencil entry]' in axis order"""
+    names = {perm[0]: "z", perm[1]: "theta", perm[2]: "stencil"}
+    return "[" + ", ".join(names[k] for k in range(3)) + "]"
+
+
 def kernels(chk):
+    import itertools
     kmod = chk.mod(U.ADVK)
+    lay = chk.__dict__.setdefault("_c10_layout", {})
     # writer: general_get_lagrange_vals
     fn = kmod.func("general_get_lagrange_vals")
     chk.functions.add(f"{U.ADVK}:general_get_lagrange_vals")
-    args = make_args(fn, funcs={"eval_spline_1d_vector": h_vector1, "eval_spline_1d_scalar": h_scalar1})
-    ex = SymExec(fn, args, calls=dict(SPLINE_HANDLERS))
+    label_w = "vals[(i - shifts[j]) % nz, k, j] = S(theta_k + thetaShifts[j])  (axes in the table's own order)"
     try:
+        from .C05 import structured
+        fn_s, why_s = structured(fn)
+        if why_s:
+            raise Undecided(why_s)
+        args = make_args(fn_s, funcs={"eval_spline_1d_vector": _vector_into_view, "eval_spline_1d_scalar": h_scalar1})
+        handlers = dict(SPLINE_HANDLERS)
+        handlers["eval_spline_1d_vector"] = _vector_into_view
+        handlers["mod"] = handlers["remainder"] = _h_mod
+        ex = SymExec(fn_s, args, calls=handlers)
         ex.run()
-        j, k = Symbol("j", integer=True), Symbol("k", integer=True)
         vals = ex.env["vals"]
         keys = list(vals.cells)
-        # the loop variables are whatever the kernel calls them: take them from the written cell
-        if len(keys) == 1 and len(keys[0]) == 3 and isinstance(keys[0][1], sp.Symbol) and isinstance(keys[0][2], sp.Symbol):
-            k, j = keys[0][1], keys[0][2]
-        nz = Symbol("n0_vals", integer=True, positive=True)
         i = args["i"]
-        want_key = (Function("mod")(i - args["shifts"].fn(j), nz), k, j)
+        sh, ts, qv = args["shifts"].fn, args["thetaShifts"].fn, args["qVals"].fn
+        perm = None
+        if len(keys) == 1 and len(keys[0]) == 3:
+            key, val = keys[0], vals.cells[keys[0]]
+            syms = [(p_, e) for p_, e in enumerate(key) if isinstance(e, sp.Symbol)]
+            ps = [p_ for p_, e in syms if val.has(ts(e)) or any(k2.has(sh(e)) for k2 in key)]
+            pt = [p_ for p_, e in syms if val.has(qv(e))]
+            if len(ps) == 1 and len(pt) == 1 and ps[0] != pt[0]:
+                perm = (({0, 1, 2} - {ps[0], pt[0]}).pop(), pt[0], ps[0])
+        if perm is None:
+            # roles not recognisable from the stored cell: judged against the axis order [z row, theta, stencil]
+            perm = (0, 1, 2)
+            roles_known = False
+        else:
+            roles_known = True
+        j = keys[0][perm[2]] if keys and len(keys[0]) == 3 and isinstance(keys[0][perm[2]], sp.Symbol) else Symbol("j", integer=True)
+        k = keys[0][perm[1]] if keys and len(keys[0]) == 3 and isinstance(keys[0][perm[1]], sp.Symbol) else Symbol("k", integer=True)
+        nz = Symbol(f"n{perm[0]}_vals", integer=True, positive=True)
+        want = {perm[0]: Function("mod")(i - sh(j), nz), perm[1]: k, perm[2]: j}
+        want_key = tuple(want[a] for a in range(3))
         fam = (Symbol("arr_kts"), args["deg"], Symbol("arr_coeffs"))
-        want_val = S1(Wrap(args["qVals"].fn(k) + args["thetaShifts"].fn(j)), 0, *fam)
+        want_val = S1(Wrap(qv(k) + ts(j)), 0, *fam)
+
         def congruent(a, b):
             # row indices are compared modulo nz (interpreted Python wraps a negative index; whether compiled code may
             # rely on that is C19's rule K1, not this property's)
             strip = lambda e: e.replace(lambda x: x.func == Function("mod") and x.args[1] == nz, lambda x: x.args[0])
             return alg_equal(strip(a), strip(b))
-        ok = len(keys) == 1 and congruent(keys[0][0], want_key[0]) and all(alg_equal(a, b) for a, b in zip(keys[0][1:], want_key[1:])) \
+        ok = len(keys) == 1 and len(keys[0]) == 3 and all(congruent(a, b) if ax == perm[0] else alg_equal(a, b)
+                                                         for ax, (a, b) in enumerate(zip(keys[0], want_key))) \
             and alg_equal(vals.cells[keys[0]], want_val)
-        chk.ob("F6-table-writer", fn, "vals[(i - shifts[j]) % nz, k, j] = S(theta_k + thetaShifts[j])", ok,
-               "the value for source row i and stencil entry j is stored at target row (i - shift_j) mod nz, with the theta "
-               "shift of the same j" if ok else _writer_diagnosis(vals, keys, want_key, want_val, congruent), file=U.ADVK,
-               func="general_get_lagrange_vals",
-               facts={"key": str(keys[0]) if keys else "", "value": str(vals.cells[keys[0]]) if keys else ""})
+        why = ("the value for source row i and stencil entry j is stored at target row (i - shift_j) mod nz, with the theta "
+               f"shift of the same j; the table is written as {_axes_text(perm)}")
+        if not ok:
+            other = [x for x in (keys[0][perm[0]].atoms(sp.Function) if keys and len(keys[0]) == 3 else ())
+                     if x.func == Function("mod") and str(x.args[1]).startswith("n") and str(x.args[1]).endswith("_vals") and x.args[1] != nz]
+            if roles_known and other and congruent(keys[0][perm[0]].subs(other[0].args[1], nz), want_key[perm[0]]):
+                why = (f"the target row (i - shift_j) is wrapped modulo {other[0].args[1]} (the length of axis {str(other[0].args[1])[1]} of the table) "
+                       f"but is used as the index of axis {perm[0]}, whose length is {nz}: rows are out of range or alias other rows when the two "
+                       "lengths differ")
+            else:
+                # diagnosis in the table's own axis order
+                kk = tuple(keys[0][a] for a in perm) if keys and len(keys[0]) == 3 else None
+                wk = tuple(want_key[a] for a in perm)
+
+                class _V:
+                    pass
+                v2 = _V()
+                v2.cells = {kk: vals.cells[keys[0]]} if kk is not None and len(keys) == 1 else dict(vals.cells)
+                why = _writer_diagnosis(v2, [kk] if kk is not None and len(keys) == 1 else keys, wk, want_val, congruent)
+        if ok or roles_known:
+            lay["writer"] = perm
+        chk.ob("F6-table-writer", fn, label_w, ok, why, file=U.ADVK, func="general_get_lagrange_vals",
+               facts={"key": str(keys[0]) if keys else "", "value": str(vals.cells[keys[0]]) if keys else "", "axes": _axes_text(perm)})
     except Undecided as e:
         chk.ob("F6-table-writer", fn, "general_get_lagrange_vals", None, f"outside the extractable fragment: {e}", file=U.ADVK,
                func="general_get_lagrange_vals")
     # reader: flux_advection
     fr = kmod.func("flux_advection")
     chk.functions.add(f"{U.ADVK}:flux_advection")
-    a2 = make_args(fr)
-    ex2 = SymExec(fr, a2, calls={})
     try:
+        fr_s = devectorise(fr)
+        a2 = make_args(fr_s)
+        ex2 = SymExec(fr_s, a2, calls={"mod": _h_mod})
         ex2.run()
         i, j, k = (Symbol(x, integer=True) for x in "ijk")
         got = ex2.env["f"].read([j, i])
         c, v = a2["coeffs"].fn, a2["vals"].fn
         nco = Symbol("n0_coeffs", integer=True, positive=True)
-        want = c(0) * v(i, j, 0) + sp.Sum(c(k) * v(i, j, k), (k, 1, nco - 1))
-        ok = alg_equal(got, want)
-        chk.ob("F6-table-reader", fr, "f[j,i] = sum_k coeffs[k] vals[i,j,k]", ok,
-               "new value at (theta j, z i) = Lagrange-weighted sum over the stencil of row i of the table" if ok else
-               f"reader computes {got}", file=U.ADVK, func="flux_advection")
+
+        def want_for(perm):
+            def at(z, th, s_):
+                d = {perm[0]: z, perm[1]: th, perm[2]: s_}
+                return v(*[d[a] for a in range(3)])
+            return c(0) * at(i, j, 0) + sp.Sum(c(k) * at(i, j, k), (k, 1, nco - 1))
+        cands = [lay["writer"]] if "writer" in lay else []
+        cands += [p_ for p_ in itertools.permutations(range(3)) if p_ not in cands]
+        got = _sums_from_zero(got)
+        rperm = next((p_ for p_ in cands if alg_equal(got, _sums_from_zero(want_for(p_)))), None)
+        ok = rperm is not None
+        if ok:
+            lay["reader"] = rperm
+        chk.ob("F6-table-reader", fr, "f[j,i] = sum_k coeffs[k] vals[z i, theta j, stencil k]  (axes in the table's own order)", ok,
+               f"new value at (theta j, z i) = Lagrange-weighted sum over the stencil of the entries of row i; the table is read as {_axes_text(rperm)}"
+               if ok else f"reader computes {got}", file=U.ADVK, func="flux_advection")
     except Undecided as e:
         chk.ob("F6-table-reader", fr, "flux_advection", None, f"outside the extractable fragment: {e}", file=U.ADVK, func="flux_advection")
     agree.check_wrapper_dispatch(chk, kmod, "get_lagrange_vals", "general_get_lagrange_vals")
+
+
+def table_layout(chk):
+    """the kernel that fills the table of field-line values, the kernel that reads it and the allocation agree on the order of its axes"""
+    lay = chk.__dict__.get("_c10_layout", {})
+    kmod = chk.mod(U.ADVK)
+    node = lay.get("alloc_node") or kmod.func("flux_advection")
+    have = {k: lay[k] for k in ("writer", "reader", "alloc") if k in lay}
+    text = "; ".join(f"{ {'writer': 'general_get_lagrange_vals writes', 'reader': 'flux_advection reads', 'alloc': '__init__ allocates'}[k]} "
+                     f"{_axes_text(p_)}" for k, p_ in have.items())
+    if len(have) < 3 and len(set(have.values())) <= 1:
+        # a side whose axes were not extracted has been reported by its own rule (F6-table-writer / -reader / E2-point-order)
+        return
+    ok = len(set(have.values())) == 1
+    chk.ob("F6-table-layout", node, "axes of self._LagrangeVals: writer = reader = allocation", ok,
+           f"all three use {_axes_text(have['writer'])}" if ok else
+           f"{text}: the value stored for (z row, theta node, stencil entry) is read back as another entry of the table (or lies outside it)",
+           file=U.ADV if "alloc_node" in lay else U.ADVK, func=f"{CLS}.__init__" if "alloc_node" in lay else "flux_advection")
 
 
 def step_wiring(chk):
@@ -492,20 +821,29 @@ def step_wiring(chk):
         p_ok = same_expr(pts, "eta_grid[1:3]") or same_expr(pts, "(eta_grid[1], eta_grid[2])") or same_expr(pts, "[eta_grid[1], eta_grid[2]]")
         n_ok = same_expr(npt, "(self._points[0].size, self._points[1].size)") or same_expr(npt, "(len(self._points[0]), len(self._points[1]))")
         shape = tab.args[0] if isinstance(tab, ast.Call) and src(tab.func) in ("np.ndarray", "np.empty", "np.zeros") and tab.args else None
-        t_ok = shape is not None and (same_expr(shape, "[self._nPoints[1], self._nPoints[0], self._zLagrangePts]") or
-                                      same_expr(shape, "(self._nPoints[1], self._nPoints[0], self._zLagrangePts)"))
+        # the three extents in any order: which axis is which is compared with the kernels (F6-table-layout)
+        t_ok = False
+        if isinstance(shape, (ast.List, ast.Tuple)) and len(shape.elts) == 3:
+            pos = {}
+            for k_, x in enumerate(shape.elts):
+                for role, forms in (("z", ("self._nPoints[1]", "self._points[1].size", "len(self._points[1])")),
+                                    ("theta", ("self._nPoints[0]", "self._points[0].size", "len(self._points[0])")),
+                                    ("stencil", ("self._zLagrangePts", "zDegree + 1"))):
+                    if any(same_expr(x, f_) for f_ in forms):
+                        pos.setdefault(role, []).append(k_)
+            if all(len(pos.get(r_, [])) == 1 for r_ in ("z", "theta", "stencil")) and p_ok and n_ok:
+                t_ok = True
+                lay_ = chk.__dict__.setdefault("_c10_layout", {})
+                lay_["alloc"] = (pos["z"][0], pos["theta"][0], pos["stencil"][0])
+                lay_["alloc_node"] = vals["self._LagrangeVals"][0]
         if p_ok and n_ok and t_ok:
             okp = True
-        elif p_ok and n_ok and shape is not None and (same_expr(shape, "[self._nPoints[0], self._nPoints[1], self._zLagrangePts]") or
-                                                      same_expr(shape, "(self._nPoints[0], self._nPoints[1], self._zLagrangePts)")):
-            badp = ("the value table is allocated [n_theta, n_z, stencil] but the kernels index it [z row, theta, stencil]: rows beyond "
-                    "min(n_theta, n_z) are out of range or alias other entries")
         elif p_ok and same_expr(npt, "(self._points[1].size, self._points[0].size)"):
             badp = "self._nPoints is (n_z, n_theta) while the slice handed to step is (theta, z): every size test and loop bound is transposed"
         elif same_expr(pts, "eta_grid[2:4]") or same_expr(pts, "eta_grid[0:2]") or same_expr(pts, "eta_grid[:2]"):
             badp = f"the advection surface is spanned by `{src(pts)}`, not by (theta, z) = eta_grid[1:3]"
-    chk.pat("E2-point-order", vals.get("self._LagrangeVals", [init])[0], "points = (theta, z); table [n_z, n_theta, stencil]", okp,
-            "the slice is (theta, z); the table is allocated [z, theta, stencil] as the kernels index it", badp,
+    chk.pat("E2-point-order", vals.get("self._LagrangeVals", [init])[0], "points = (theta, z); table extents n_z, n_theta, stencil", okp,
+            "the slice is (theta, z); the table has one axis of n_z rows, one of n_theta nodes and one of stencil entries", badp,
             file=U.ADV, func=f"{CLS}.__init__")
     # loop: one spline per z column i, interpolated from f[:, i] before the table row is produced; the update runs after the loop
     lp = None
@@ -552,8 +890,12 @@ def run(chk):
         "Element-wise model of FluxSurfaceAdvection._getLagrangePts (b_z, theta shift per cell, foot displacement -v b_z dt, "
         "stencil cells, theta shifts, node distances with the reference z cancelling, first barycentric weights with an exact "
         "on-node case, stencil centring); sibling agreement of b_z and the field-line pitch with ParallelGradient/fieldline; "
-        "table writer/reader agreement of the two kernels by symbolic forward substitution (target row (i - shift_j) mod nz, "
-        "theta shift of the same j; weighted sum over the stencil); dispatch, argument roles, interpolate-before-evaluate; "
+        "table writer/reader/allocation agreement by symbolic forward substitution: the axis roles (z row, theta node, stencil entry) "
+        "are read off the writer's stored cell, the reader's sum and the allocated shape and compared WITH EACH OTHER (any consistent "
+        "axis order holds; the row is (i - shift_j) modulo the length of the axis it is used on, theta shift of the same j; weighted sum "
+        "over the stencil; whole-array statements are lowered to element loops, eval_spline_1d_vector into a one-axis view is followed); "
+        "a conditional that cuts the local radii the tables are built for is decided under the condition's own assumption "
+        "(F6-radial-table); dispatch, argument roles, interpolate-before-evaluate; "
         "index-space typing of the tables and of gridStep (engine C). Constants/linearity/shift identities are consequences "
         "and are not decided separately; floor conventions are fixed by the stencil rule only.")
     chk.in_file(U.ADV)
@@ -561,6 +903,7 @@ def run(chk):
     sibling_geometry(chk)
     kernels(chk)
     step_wiring(chk)
+    table_layout(chk)
     flux_index_spaces(chk)
     from .. import lints as _l
     _l.check_cache_keys(chk, U.ADV, "FluxSurfaceAdvection")
